@@ -5,8 +5,10 @@
 mod codec;
 mod gen;
 mod rng;
+mod scen_buf;
 mod scen_exec;
 mod scen_grid;
+mod scen_prog;
 mod scen_stack;
 mod stategen;
 
@@ -59,6 +61,16 @@ fn main() {
                     args.get(6).and_then(|s| s.parse().ok()),
                     &mut out,
                 ),
+                "steps" => scen_prog::run_steps(seed, tier, args.get(5).map(|s| s.as_str()).unwrap_or("*"), &mut out),
+                "run" => scen_prog::run_runs(seed, tier, &mut out),
+                "buf" => scen_buf::run(seed, tier, &mut out),
+                "buf-exh" => {
+                    if tier == "thorough" {
+                        scen_buf::run_exhaustive(9, 4, &mut out)
+                    } else {
+                        scen_buf::run_exhaustive(7, 4, &mut out)
+                    }
+                }
                 "stkgrid" => scen_grid::run(&mut out),
                 "stack-exh" => scen_stack::run_exhaustive(if tier == "thorough" { 4 } else { 3 }, &mut out),
                 _ => {
@@ -84,6 +96,7 @@ fn main() {
                         };
                         match kind.as_str() {
                             "stackop" => scen_stack::replay(&xs[1..]),
+                            "bufseq" => scen_buf::replay(&xs[1..]),
                             "exec" => scen_exec::replay_exec(&xs[1..]),
                             "step" => scen_exec::replay_step(&xs[1..]),
                             _ => None,
